@@ -759,9 +759,16 @@ func compactToSliceOfSlice(compact [][2]int) [][]int {
 //	process(buf)
 func (r *Regex) AppendAllIndex(dst [][2]int, b []byte, n int) [][2]int {
 	if n == 0 {
-		return nil
+		return dst
 	}
-	return r.engine.FindAllIndicesStreaming(b, n, dst)
+	// The engine reuses (truncates) the slice it is given, so hand it only the spare
+	// capacity after the existing elements; they must be kept.
+	base := len(dst)
+	tail := r.engine.FindAllIndicesStreaming(b, n, dst[base:])
+	if base == 0 {
+		return tail
+	}
+	return append(dst, tail...)
 }
 
 // AppendAllStringIndex appends all successive match index pairs for the string
